@@ -226,7 +226,8 @@ def h_pack_crash(p: int, j: int, band: int) -> None:
         # candidate cut points: every mutating operation of the pack, and "after everything"
         cand = [i for i in range(start, nops) if log[i][0] in ('write', 'truncate', 'rename', 'remove', 'create')] + [nops]
     k = pick(p, 0, len(cand))
-    assume(k % 4 == band)          # shard: every 4th cut operation
+    if band >= 0:
+        assume(k % 4 == band)      # shard: every 4th cut operation
     with untraced():
         pi = cand[k]
         files, dirs = vfs.image(log, pi)
@@ -245,7 +246,12 @@ def h_pack_crash(p: int, j: int, band: int) -> None:
         for path, data in files.items():
             if not path.endswith('.lock') and not path.endswith('.tmp'):
                 env2.fs.put(path, data)
-        assume(DATA in files)
+        # The cuts that leave NO data file (between the pack's two renames) are explored by the shard band=-1 alone; that
+        # is a recorded open finding (known_findings.jsonl), kept apart so that every other cut is still explored in full.
+        assume((DATA in files) == (band >= 0))
+        if DATA not in files:
+            fail('after a crash between the two renames of a pack there is no data file: reopening silently creates an empty '
+                 'database (the unpacked file sits in .old, the packed one in .pack)', sorted(x for x in files if x.startswith(DATA)))
         try:
             s2 = env2.filestorage()
         except Exception as ex:
@@ -263,6 +269,12 @@ def h_pack_crash(p: int, j: int, band: int) -> None:
         c07.differential(with_commit, s3, stop, True, 'after crash, commit and reopen')
         s3.close()
     reached()
+
+
+def known_crash_between_renames(body):
+    """known_findings.jsonl classifier: the crash image between rename(Data.fs -> .old) and rename(.pack -> Data.fs)."""
+    return (body.get('harness') == 'pack_crash' and (body.get('fixed') or {}).get('band') == -1
+            and 'no data file' in (body.get('message') or ''))
 
 
 def h_pack_fault(f: int) -> None:
@@ -333,7 +345,7 @@ HARNESSES = [
             symbolic='p over all mutating operations of the pack (data, .pack, .old, .index files), j = tear of the write',
             bounds='one pack of history G1', oracle='C07 differential oracle',
             code=['FileStorage.__init__/_restore_index/_check_sanity/read_index on crash images of a pack', 'FileStorage.pack (operation order)'],
-            quick=dict(timeout=170, shards=shards(band=[0, 1, 2, 3])), thorough=dict(timeout=900, shards=shards(band=[0, 1, 2, 3]))),
+            quick=dict(timeout=170, shards=shards(band=[0, 1, 2, 3, -1])), thorough=dict(timeout=900, shards=shards(band=[0, 1, 2, 3, -1]))),
     Harness('pack_fault', h_pack_fault,
             decides='a pack whose f-th file-system operation fails leaves the database unchanged and usable (commit lock free, pack '
                     'flag reset, .pack removed); a later pack succeeds',
